@@ -757,7 +757,16 @@ fn exec_generic<F: Function + RenderHints + MathFunction + Clone>(
         }
     });
     rt::uninstall();
+    if let Some(p) = real {
+        SPENT_POOL.with(|s| *s.borrow_mut() = Some(p));
+    }
     r
+}
+
+thread_local! {
+    /// The real pool the last execution ran on, handed back for another call
+    static SPENT_POOL: std::cell::RefCell<Option<ThreadPool>> =
+        const { std::cell::RefCell::new(None) };
 }
 
 thread_local! {
@@ -1467,7 +1476,24 @@ pub fn run_c09(st: &Shared, tier: Tier) -> RunReport {
                 .expect("rayon pool"),
         );
         REAL_POOL.with(|p| *p.borrow_mut() = Some(pool1));
+        // one time in three the same pool first serves an unrelated call:
+        // whatever its worker thread keeps between calls is then dirty
+        if st.borrow_mut().ch.odds("previous_call_on_this_real_pool", 1, 3) {
+            let w2 = {
+                let ch = &mut st.borrow_mut().ch;
+                let kind = *ch.pick("previous_call_kind", &[Kind::D2, Kind::D3, Kind::Mesh]);
+                let mut w2 = gen_work(ch, kind, Tier::Quick);
+                w2.backend = work.backend;
+                w2
+            };
+            let b2 = build(&w2);
+            let _ = exec(st, &b2, &w2, Some(1), CancelPlan::Never);
+            rep.count("fault.unrelated_call_on_this_real_pool_just_before", 1);
+            let back = SPENT_POOL.with(|s| s.borrow_mut().take());
+            REAL_POOL.with(|p| *p.borrow_mut() = back);
+        }
         let out = exec(st, &b, &work, Some(1), CancelPlan::Never);
+        SPENT_POOL.with(|s| s.borrow_mut().take());
         rep.evaluations += 1;
         rep.count("sched.real_rayon_single_thread_pool", 1);
         match out {
